@@ -167,8 +167,8 @@ def unit(job, variant, pi, seed, length):
 def main(ck: Check):
     quick = ck.tier == "quick"
     variants = [0] if quick else [0, 1, 2]
-    plans_per = 3 if quick else 8
-    length = (25, 40) if quick else (40, 80)
+    plans_per = 3 if quick else 24
+    length = (25, 40) if quick else (60, 120)
     rng = ck.rng
     work = [(job, v, pi, ck.seed, rng.randint(*length)) for job in JOBS for v in variants for pi in range(plans_per)]
     tot = {"dispatches": 0, "rejections": 0, "listened_rejections": 0, "fork_dispatches": 0, "fork_errors": 0, "synthetic": 0}
